@@ -77,8 +77,19 @@ func Bytes(n int) ([]byte, error) {
 
 // Number returns a random number from 0 to (incl.) max.
 func Number(max uint64) (uint64, error) {
-	secureLimit := math.MaxUint64 - (math.MaxUint64 % max)
-	max++
+	// The number of possible values (max+1) does not fit into a uint64 if max
+	// is the biggest uint64: every 64 bit value is a result then.
+	if max == math.MaxUint64 {
+		randomBytes, err := Bytes(8)
+		if err != nil {
+			return 0, err
+		}
+		return binary.LittleEndian.Uint64(randomBytes), nil
+	}
+
+	// Only use candidates below the biggest multiple of the number of values.
+	values := max + 1
+	secureLimit := math.MaxUint64 - (math.MaxUint64 % values)
 
 	for {
 		randomBytes, err := Bytes(8)
@@ -88,7 +99,7 @@ func Number(max uint64) (uint64, error) {
 
 		candidate := binary.LittleEndian.Uint64(randomBytes)
 		if candidate < secureLimit {
-			return candidate % max, nil
+			return candidate % values, nil
 		}
 	}
 }
